@@ -743,7 +743,14 @@ func (r *Run) opClientChange(st Step) {
 	}
 	// the registration lives in the store's client table; the reference store keeps client records by pointer and
 	// stored requests reference them, so the operator's update is made in place (a DB store re-reads the client by id)
-	updateClientInPlace(r.W.Mem.Clients[cs.ID], BuildClient(*cs))
+	if st.p("how") == "replace" {
+		// the operator replaces the registration record (store.Clients[id] = new object): requests stored earlier still
+		// reference the old object - a database store would re-read the client by id instead
+		r.W.Mem.Clients[cs.ID] = BuildClient(*cs)
+		r.probe("client-change-by-replacement")
+	} else {
+		updateClientInPlace(r.W.Mem.Clients[cs.ID], BuildClient(*cs))
+	}
 	r.logf("client_change %s %s", cs.ID, st.V)
 	r.Shape = append(r.Shape, "client_change:"+what)
 	r.probe("client-change:" + what)
